@@ -17,6 +17,10 @@ pub struct Workload {
     pub placements: Vec<String>,
     /// Feed the (single) file on standard input instead of naming a path.
     pub via_stdin: bool,
+    /// Traversal only: an explicitly named file outside the tree is searched first and its
+    /// search fails ("open" or "read"); the traversed files that follow on the same worker
+    /// must still be treated as traversed files.
+    pub failing_explicit: Option<&'static str>,
 }
 
 pub fn gen_workload(sub: u64) -> Workload {
@@ -68,7 +72,10 @@ pub fn gen_workload(sub: u64) -> Workload {
         corpus.files.truncate(1);
         placements.retain(|p| p.starts_with(&format!("{}:", corpus.files[0].0)));
     }
-    Workload { corpus, explicit: via_stdin || rng.chance(1, 2), binary_flag, mmap: if rng.chance(1, 2) { "--mmap" } else { "--no-mmap" }, frag: rng.chance(1, 2) && !via_stdin, mode, placements, via_stdin }
+    let explicit = via_stdin || rng.chance(1, 2);
+    let mmap = if rng.chance(1, 2) { "--mmap" } else { "--no-mmap" };
+    let failing_explicit = if !explicit && rng.chance(1, 4) { Some(if mmap == "--no-mmap" && rng.chance(1, 2) { "read" } else { "open" }) } else { None };
+    Workload { corpus, explicit, binary_flag, mmap, frag: rng.chance(1, 2) && !via_stdin, mode, placements, via_stdin, failing_explicit }
 }
 
 /// Model lines "w/path:N:text" for the literal pattern foo, detection disabled.
@@ -119,9 +126,20 @@ pub fn run_workload(sub: u64, acc: &mut Acc, ctx: &Ctx, _thorough: bool) {
             args.push(format!("w/{p}"));
         }
     } else {
+        if w.failing_explicit.is_some() {
+            let x = cwd.join("x");
+            let _ = std::fs::create_dir_all(&x);
+            std::fs::write(x.join("bad.txt"), b"foo in a file whose search fails\nmore foo\n").unwrap();
+            args.push("x/bad.txt".into());
+        }
         args.push("w".into());
     }
-    let plan = if w.frag { vec!["read_frag=11".to_string()] } else { vec!["noop=1".to_string()] };
+    let mut plan = if w.frag { vec!["read_frag=11".to_string()] } else { vec!["noop=1".to_string()] };
+    match w.failing_explicit {
+        Some("open") => plan.push("open_err=/x/bad.txt:13".into()),
+        Some(_) => plan.push("read_err=/x/bad.txt:0:5".into()),
+        None => {}
+    }
     let spec = RunSpec { args, plan, stdin: if w.via_stdin { Some(w.corpus.files[0].1.clone()) } else { None }, ..RunSpec::default() };
     let got = ctx.run(&cwd, &spec, 60);
     acc.evals += 1;
@@ -130,6 +148,9 @@ pub fn run_workload(sub: u64, acc: &mut Acc, ctx: &Ctx, _thorough: bool) {
     acc.mix.inc(&format!("mode:{}", w.mode));
     if w.via_stdin {
         acc.mix.inc("via-stdin");
+    }
+    if w.failing_explicit.is_some() {
+        acc.faults.add("explicit-file-fails-before-traversal", got.fired("open_err") + got.fired("read_err"));
     }
     acc.faults.add("read-fragmentation", got.fired("read_frag"));
     for p in &w.placements {
